@@ -82,16 +82,17 @@ IsChain(s) ==
   /\ Cardinality(bc) = s.length
   /\ { SnOrder(s, c) : c \in bc } = 1..s.length
   /\ \A c \in bc : SnOrder(s, c) < s.length => \E d \in Nbrs4(NR, NC, c) : SnOrder(s, d) = SnOrder(s, c) + 1
-PositionsAgree(s) ==
-  /\ PosInGrid(s.head_position) /\ SnOrder(s, SnCell(s.head_position)) = s.length
+HeadAgrees(s) == PosInGrid(s.head_position) /\ SnOrder(s, SnCell(s.head_position)) = s.length
+MapsAgree(s) ==
   /\ \A c \in AllCells : s.body[c[1]][c[2]] = (SnOrder(s, c) > 0)
   /\ \A c \in AllCells : s.tail[c[1]][c[2]] = (SnOrder(s, c) = 1)
+PositionsAgree(s) == HeadAgrees(s) /\ MapsAgree(s)
 OneTail(s) == Cardinality({ c \in AllCells : s.tail[c[1]][c[2]] }) = 1
 FruitOffBody(s) == PosInGrid(s.fruit_position) /\ SnOrder(s, SnCell(s.fruit_position)) = 0
 PhysInv(s) == InBounds(s) /\ IsChain(s) /\ PositionsAgree(s) /\ OneTail(s) /\ FruitOffBody(s)
 
 (* ---------------- rules on states ---------------- *)
-Decodable(s) == InBounds(s) /\ IsChain(s) /\ PositionsAgree(s)
+Decodable(s) == InBounds(s) /\ IsChain(s) /\ HeadAgrees(s)     \* the order grid reads as a snake
 Legal(s, a) == SnLegal(SnakeOf(s), a)
 Mask(s) == [j \in 1..4 |-> Legal(s, j - 1)]
 (* second, order-based formulation of the same rule (used by the MC model to cross-check the first):
